@@ -109,6 +109,7 @@ def run_c26(v):
     if not stats or stats.get("truncated", 0) == 0 or stats.get("complete", 0) == 0 or stats.get("rejected", 0) == 0:
         raise lib.ToolError(f"vacuous ffi trace: {stats}")
     planted = _selftest_c26(trace)
+    ind = lib.apalache_inductive("FfiBufInd.tla") if not quick else {"status": "run in the thorough tier only (Apalache, ~1-3 min)"}
     samples = [e for e in lib.read_ndjson(trace, 4000) if e["ev"] == "call" and e["cap"] in (0, 1, 7, e["fullLen"], e["fullLen"] + 1)][:8]
     v.coverage.update({
         "states": mc["distinct"] + s["events"], "transitions": mc["states"] + s["events"],
@@ -121,6 +122,7 @@ def run_c26(v):
         "callee_crashes_observed": s["crashes"], "forked_children": s["forks"],
         "buffer_placements": args[args.index("--modes") + 1],
         "selftest_corruptions_flagged": planted,
+        "unbounded_inductive_argument": ind,
         "samples": samples,
         "exhaustive": False,
     })
